@@ -122,5 +122,41 @@ pub fn run(rec: &mut Recorder, thorough: bool, seed: u64) -> Result<serde_json::
         gen_once(rec, i);
         injected += 1;
     }
-    Ok(json!({"sign_draws": sign_draws, "keygen_draws_first_run": g, "injected": injected}))
+    // ---- key sealing (k1.seal): the 512-byte r is one draw (or several system calls); whichever path the crate takes to the
+    // operating system, a failure there must surface as an error
+    let rcp = &keys::pke_pairs::<V1>(1)[0];
+    let rpk: PkePub<V1> = key_from_bytes(&rcp.public).unwrap();
+    let lkb = rng.bytes(32);
+    let (lkid, rsid, rpid) = (rec.intern(&lkb), rec.intern(&rcp.secret), rec.intern(&rcp.public));
+    let seal_once = |rec: &mut Recorder, fail_at: i32| -> i32 {
+        let lk: LocalKey<V1> = key_from_bytes(&lkb).unwrap();
+        rec.emit(json!({"ev":"WrapCall","be":"v1","wkind":"seal","ver":1,"ktype":"local","key":lkid,"with":rpid}));
+        unsafe { (sh.arm)(fail_at) };
+        let r = catch_unwind(AssertUnwindSafe(|| lk.seal(&rpk).map(|x| x.to_string())));
+        let made = unsafe { (sh.count)() };
+        unsafe { (sh.disarm)() };
+        emit_draws(rec, made, fail_at);
+        match r {
+            Err(p) => {
+                let msg = p.downcast_ref::<String>().cloned().or_else(|| p.downcast_ref::<&str>().map(|s| s.to_string())).unwrap_or_default();
+                rec.emit(json!({"ev":"Panic","where":"wrap","payload":msg.chars().take(160).collect::<String>()}))
+            }
+            Ok(Err(e)) => rec.emit(json!({"ev":"WrapRet","ok":false,"errc":errc(&e),"err":errname(&e),"blob":0,"fresh":[],"len":0,"klen":32})),
+            Ok(Ok(t)) => {
+                let blob = t.strip_prefix("k1.seal.").and_then(crate::b64::dec).unwrap_or_default();
+                let bid = rec.intern(&blob);
+                let c = rec.intern(blob.get(80..).unwrap_or(&[]));
+                rec.emit(json!({"ev":"WrapRet","ok":true,"blob":bid,"fresh":[c],"len":blob.len(),"klen":32,"errc":""}));
+            }
+        }
+        made
+    };
+    rec.emit(json!({"ev":"Reset","scenario":"rsa-faults-seal"}));
+    rec.emit(json!({"ev":"Pair","sk":rsid,"pk":rpid,"origin":"fixture"}));
+    let sd = seal_once(rec, -1);
+    for i in 0..sd.min(6) {
+        seal_once(rec, i);
+        injected += 1;
+    }
+    Ok(json!({"sign_draws": sign_draws, "keygen_draws_first_run": g, "seal_draws": sd, "injected": injected}))
 }
